@@ -148,6 +148,7 @@ def run_case(case: dict) -> CaseResult:
         env.log("rl_on_connect")
         if cb_delay.get("connect"):
             await asyncio.sleep(cb_delay["connect"] / 64)
+        env.log("rl_on_connect_ret")
 
     async def on_disconnect(expected):
         env.log("rl_on_disconnect", expected=expected)
@@ -291,6 +292,7 @@ def judge(env, world, case, viol, classes) -> None:
     streak = 0
     listening = False
     listen_zc: set = set()
+    in_on_connect = False
     disc_cb = None             # (call time, stale slot instants) of the on_disconnect callback currently running / last run
     record_in_error_cb = False  # a matching record reached the manager while the user's on_connect_error callback was still running
     must_listen_since = None   # set at a failure report: from then on (later instants) a named, started, idle manager must be registered
@@ -442,6 +444,7 @@ def judge(env, world, case, viol, classes) -> None:
                 slot_set_seq = e["seq"]
                 classes.add(f"backoff_n{min(n, 8)}")
         elif k == "rl_on_connect":
+            in_on_connect = True
             cb_seq.append("c")
             if streak >= 2:
                 classes.add("streak_then_success")
@@ -457,7 +460,11 @@ def judge(env, world, case, viol, classes) -> None:
             if cur_attempt is not None:
                 cur_attempt["outcome"] = "ok"
             slot = [] if not slot else slot  # a pending cool-down/back-off may still fire; it must then cause nothing
+        elif k == "rl_on_connect_ret":
+            in_on_connect = False
         elif k == "rl_on_disconnect":
+            if in_on_connect:
+                viol.append(V("c18:callbacks-overlap", f"on_disconnect invoked at t={t:.6f} while the on_connect callback of that session had not returned yet (strictly alternating calls)"))
             cb_seq.append("d")
             phase = "in_callback"  # the manager holds its lock until the user's callback has returned
             disc_cb = {"t0": t, "stale": list(slot), "expected": e["expected"], "t1": None}
@@ -477,7 +484,9 @@ def judge(env, world, case, viol, classes) -> None:
                     classes.add("expected_cooldown")
                 else:
                     justified_now.append((t, "unexpected disconnect", True))
-                    if not coincides(t):
+                    # (the injected ending that caused this very disconnect is no coinciding event)
+                    own = 1 + sum(1 for e2 in tr if e2["kind"] == "end_injected" and abs(e2["t"] - t) <= EPS)
+                    if not coincides(t, own):
                         pending_mandatory.append((t, "unexpected-disconnect:session ended unexpectedly", e["seq"]))
                     classes.add("unexpected_disconnect")
         elif k == "mdns_deliver":
